@@ -1,6 +1,6 @@
 # replay of a solver counterexample against the real library (exit 1 = reproduces)
 import sys, warnings
-sys.path.insert(0, '/repo')
+sys.path.insert(0, '/tmp/sr/C10-m6')
 warnings.simplefilter('ignore')
 import numpy as np
 from svgpathtools import *
@@ -38,6 +38,8 @@ for trial in range(400):
     for i in range(n):
         if joined[i] and q[i].end != q[(i+1) % n].start:
             bad = (i, p, q); break
+    if q.start != q[0].start or q.end != q[-1].end or (all(joined) and not q.isclosed()):
+        REPRODUCED('%s: Path.start/end/isclosed of the result disagree with its segments: start %r vs %r, end %r vs %r, closed %r' % (op, q.start, q[0].start, q.end, q[-1].end, q.isclosed() if q.iscontinuous() else None))
     if bad: break
 if bad:
     i, p, q = bad
